@@ -26,6 +26,11 @@ def gen_inv_schema(rng, name, avoid=()):
         ents.append(M.Entity('t0s', supers=['t0'], attrs=[M.Attr('t0s_n', M.INT())]))
         if 'inherited two levels' not in avoid and rng.random() < .5:
             ents.append(M.Entity('t0ss', supers=['t0s'], attrs=[M.Attr('t0ss_n', M.INT())]))
+    if 'diamond target' not in avoid and rng.random() < .5:
+        # diamond below t0: the common ancestor's inverse attributes are reached along two paths
+        ents.append(M.Entity('t0a', supers=['t0'], attrs=[M.Attr('t0a_n', M.INT())]))
+        ents.append(M.Entity('t0b', supers=['t0'], attrs=[M.Attr('t0b_n', M.INT())]))
+        ents.append(M.Entity('t0d', supers=['t0a', 't0b'], attrs=[M.Attr('t0d_n', M.INT())]))
     targets = [e.name for e in ents]
     n_r = rng.randint(1, 3)
     for ri in range(n_r):
@@ -42,6 +47,12 @@ def gen_inv_schema(rng, name, avoid=()):
         ents.append(r)
         if 'referrer subtype' not in avoid and rng.random() < .4:
             ents.append(M.Entity('r%ds' % ri, supers=['r%d' % ri], attrs=[M.Attr('r%ds_v' % ri, M.INT())]))
+        if 'referrer with another attribute layout' not in avoid and rng.random() < .5:
+            # a referrer type in which the inverted entity is NOT the first supertype: its attributes sit at other positions,
+            # and one of the leading ones is entity-valued too
+            ents.append(M.Entity('x%d' % ri, attrs=[M.Attr('x%d_e' % ri, M.ENT(rng.choice(['t%d' % x for x in range(n_t)])), True),
+                                                        M.Attr('x%d_v' % ri, M.INT())]))
+            ents.append(M.Entity('r%dm' % ri, supers=['x%d' % ri, 'r%d' % ri], attrs=[M.Attr('r%dm_v' % ri, M.INT())]))
     s = M.Schema(name, [], ents)
     # inverse declarations on the target named by the inverted attribute
     for e in list(ents):
@@ -90,7 +101,7 @@ def gen_pop(s, rng, single_ok):
             if inv.akind is None:
                 single_attrs.add((inv.entity, inv.attr))
     for e in s.entities:
-        if not e.name.startswith('r'):
+        if not e.name.startswith(('r', 'x')):
             continue
         for _ in range(rng.randint(1, 4)):
             vals = []
